@@ -112,6 +112,7 @@ CHECKS = {
     "C06": dict(level="model_checking", run=run_l(plans_c06)),
     "C15": dict(level="model_checking", run=run_l(plans_c15)),
     "C19": dict(level="model_checking", run=fam_misc.run_c19),
+    "C20": dict(level="model_checking", run=fam_misc.run_c20),
     "C16": dict(level="model_checking", run=run_l(plans_c16)),
 }
 
